@@ -52,6 +52,12 @@ def api_obs(tag, chk, ops=None, checks="none", tier="quick"):
     add("SETOPT_TEXT", "BOOL", 1)
     add("SETOPT_TEXT", "INT", 1, extra=("EXCL_RESET",))
     add("SETOPT_TEXT", "BOOL", 1, extra=("EXCL_RESET",))
+    # set-from-text on an emptied scalar and on lists: a refused text must not leave a new (zero) element behind
+    # or drop the defaults the list still holds
+    add("SETOPT_TEXT", "INT", 0)
+    add("SETOPT_TEXT", "BOOL", 0)
+    for nv in (0, 1, 3):
+        add("SETOPT_TEXT", "INTLIST", nv)
     add("SETNINT_VETO", "INT", 1)
     add("SETNINT_VETO", "INT", 0)
     return obs
